@@ -678,12 +678,20 @@ impl<'a> GeneratorState<'a> {
                                                 |v| v.var_type == VariableType::CharPtr && v.var_const,
                                             );
                                         if const_ptr {
+                                            let offset = l
+                                                .checked_mul(-256)
+                                                .ok_or_else(|| {
+                                                    self.compiler_state.syntax_error(
+                                                        "Constant expression overflow",
+                                                        pos,
+                                                    )
+                                                })?;
                                             if self.acc_in_use {
                                                 self.sasm(PHA)?;
                                             }
                                             let signed = self.asm(
                                                 LDA,
-                                                &ExprType::Absolute(var, false, -l * 256),
+                                                &ExprType::Absolute(var, false, offset),
                                                 pos,
                                                 true,
                                             )?;
